@@ -141,17 +141,19 @@ def run(ctx: Ctx):
         "(coverage.uses_outside_the_property_statement_that_failed) but are not in the property statement: never a verdict",
     ]
     # 1./2. TLC enumerates the input space (invariants checked in the same runs) and exports it
-    tables, texts = {}, {}
+    tables, texts, targeted = {}, {}, []
     for cfg in ["MCX_quick" if q else "MCX_thorough"]:
         for v in ctx.export(AREA, "MCHostile", cfg, timeout=3000):
             if not isinstance(v, dict):
                 continue
             if "table" in v:
-                tables[v["table"]] = {"toks": [_text(t) for t in v["toks"]], "fns": v["fns"], "slots": v["slots"]}
+                tables[v["table"]] = {"toks": [_text(t) for t in v["toks"]], "fns": v["fns"], "slots": v["slots"], "ctxt": v["ctxt"]}
                 if "bodies" in v:
                     H.set_body_table(v["bodies"])
+            elif v.get("mode") == "target":      # fam = the function / slot the text is aimed at: executed in both tiers
+                targeted.append((v["fam"], "-", _text(v["s"])) if v["fam"] in H.table() else ("Request", v["fam"], _text(v["s"])))
             elif "fam" in v:
-                texts.setdefault((v["fam"], v["mode"]), {})[_text(v["s"])] = v["len"]
+                texts.setdefault((v["fam"], v["mode"]), {})[_text(v["s"])] = v["k"] if v["mode"] == "sweep" else v["len"]
     if not tables or not texts:
         raise MachineryError("MCHostile exported nothing")
     ctx.exhaustive = False
@@ -186,13 +188,17 @@ def run(ctx: Ctx):
             elif mode == "gram" and q:
                 slots = rng.sample(slots, min(2, len(slots)))
             elif mode == "sweep" and q:
-                slots = rng.sample(slots, 1)
+                # ntok is the context index here: the slots that parse what the context surrounds always get the text
+                aimed = list(tb["ctxt"][ntok - 1])
+                slots = aimed + [sl for sl in rng.sample(slots, 1) if sl not in aimed]
             elif mode in ("pump", "pump2") and q:
                 slots = rng.sample(slots, 1)
             for sl in slots:
                 items.append(("Request", sl, s))
             if mode == "seq" and ntok <= 1:
                 trivial.add(s)
+    items += targeted
+    ctx.notes["targeted_pairs"] = len(targeted)
     # every body x every CONTENT_LENGTH variant under the content types the body is normally sent with
     for bn, (_kind, _b, canon, cls) in sorted(H.BODY_TABLE.items()):
         for cl in sorted(cls):
